@@ -1,5 +1,6 @@
 """Generators for the component properties C11-C19."""
-import random, math, itertools
+import random, math, itertools, re, os
+import runner
 from lib import *
 from grad import weights, finish, SAFE_UN
 
@@ -136,6 +137,16 @@ def pred_values(rng, n, inside):
     special = [0.0, 1.0, -3.0, 7.0, 1e6, -1e6, EPS, 1 - EPS, EPS + 1e-13, EPS - 1e-13, 1 - EPS + 1e-13, 1 - EPS - 1e-13, 0.5]
     return [rng.choice(special) if rng.random() < 0.6 else rng.uniform(0, 1) for _ in range(n)]
 
+def near_bound_values(rng, n):
+    """predictions a few units in the last place away from the clip bounds (and from 0 and 1): strictly inside the band the
+    derivative is the analytic one, strictly outside it is 0 — a bound is 'hit' only within the code's 1e-240 threshold"""
+    out = []
+    for _ in range(n):
+        base = rng.choice([EPS, 1 - EPS, EPS, 1 - EPS, 0.0, 1.0, 0.5])
+        k = rng.choice([-16, -8, -4, -3, -2, -1, 0, 1, 2, 3, 4, 8, 16])
+        out.append(ulps(base, k) if rng.random() < 0.8 else rng.uniform(0.05, 0.95))
+    return out
+
 def target_values(rng, kind, shape):
     """targets of several kinds: hard labels, soft labels whose rows sum to exactly 1 (dyadic fractions), multi-hot,
     all-zero rows, arbitrary values in [0,1], out-of-range values (clipped by the losses)"""
@@ -227,7 +238,7 @@ def gen_C13(rng, tier):
         n = prod(shape)
         p = Prog('c13_%s%d' % (kind, i))
         j = p.bind(kind, 'j')
-        mode = rng.choice(['inside', 'inside', 'clipped'])
+        mode = rng.choice(['inside', 'inside', 'clipped', 'near-bound'])
         if kind == 'mse':
             yp = [rng.uniform(-3, 3) for _ in range(n)]
             # some targets equal their prediction exactly (the derivative there is 0, finite)
@@ -237,6 +248,8 @@ def gen_C13(rng, tier):
             yp = pred_values(rng, n, True)
             if mode == 'clipped':
                 yp = [rng.choice([0.0, 1.0]) if rng.random() < 0.5 else v for v in yp]
+            if mode == 'near-bound':
+                yp = near_bound_values(rng, n)
             yt, tk = target_values(rng, kind, shape)
             p.tag('targets-' + tk)
         if rng.random() < 0.12:
@@ -510,3 +523,127 @@ def gen_C11(rng, tier):
         p.tag(lossk, actk, 'batch1' if batch == 1 else 'batch>1', 'steps%d' % steps)
         progs.append(p)
     return progs
+
+
+# ------------------------------------------------------------------------------------------------ formula oracle
+# The theorems give the activations' values and derivatives as real-number formulas (C14.*_value, C15x.*_local_vjp). The
+# model is compared with the code on binary64; these programs compare the CODE with the theorems' formulas over the whole
+# finite range — where binary64 over/underflow can make model and code agree on something that is not the formula.
+
+RANGE_VALS = [0.0, -0.0, 1e-300, -1e-300, 1e-200, 1.0, -1.0, 0.5, -0.25, 30.0, -30.0, 36.5, -37.5, 300.0, -300.0, 700.0, -700.0,
+              709.0, -709.0, 710.0, -710.0, 745.0, -745.5, 800.0, -800.0, 1e5, -1e5, 1e300, -1e300]
+# (709.09 .. 709.78 is left out: there Go's math.Exp already returns +Inf while the C library behind the model does not)
+
+def _sig(x):
+    if x >= 0:
+        e = math.exp(-x); return 1.0 / (1.0 + e)
+    e = math.exp(x); return e / (1.0 + e)
+
+def _dsig(x):
+    e = math.exp(-abs(x)); return e / ((1.0 + e) * (1.0 + e))
+
+def oracle_progs(tier, with_bp=True):
+    progs = []
+    ws = [0.75 + 0.125 * (i % 5) * (-1) ** i for i in range(len(RANGE_VALS))]
+    for kind, cmd, m in (('relu', 'relu', None), ('leaky', 'leaky nil', 0.01), ('leaky', 'leaky ' + f2b(0.25), 0.25),
+                         ('leaky', 'leaky ' + f2b(-0.5), -0.5), ('sigmoid', 'sigmoid', None), ('tanh', 'tanh', None)):
+        for depth in (0, 1):
+            p = Prog('oracle_%s_%s_%d' % (kind, str(m).replace('.', '_').replace('-', 'n'), depth))
+            a = p.bind(cmd, 'a')
+            xs = list(RANGE_VALS)
+            x0 = p.tensor([len(xs)], xs, tracked=True)
+            # depth 1: the activation's input is the output of an earlier tracked operation (x = 1 * x0)
+            x = x0 if depth == 0 else p.bind('scale %s %s' % (x0, f2b(1.0)))
+            y = p.bind('fwd %s %s' % (a, x)); p.add('obs %s' % y)
+            if with_bp:
+                g = p.tensor([len(xs)], ws)
+                z = p.bind('mul %s %s' % (y, g))
+                p.add('bp %s' % z)
+                p.add('obs %s' % x0)
+            p.oracle = (kind, m, xs, ws)
+            p.tag('formula-oracle', kind)
+            progs.append(p)
+    # softmax rows with |x| <= 700 (values only: the gradient carries finding D2)
+    rows = [[700.0, 699.0, -700.0], [-700.0, -700.0, -700.0], [700.0, 700.0, 700.0], [0.0, -700.0, 1.0], [-650.0, 20.0, -3.0], [5.0, 5.0, -5.0]]
+    p = Prog('oracle_softmax')
+    a = p.bind('softmax 1', 'a')
+    x = p.tensor([len(rows), 3], [v for r in rows for v in r])
+    y = p.bind('fwd %s %s' % (a, x)); p.add('obs %s' % y)
+    p.oracle = ('softmax', None, rows, None)
+    p.tag('formula-oracle', 'softmax')
+    progs.append(p)
+    return progs
+
+def _close(a, b, rel=1e-9):
+    if a != a or b != b: return False
+    if a in (float('inf'), float('-inf')) or b in (float('inf'), float('-inf')): return a == b
+    return abs(a - b) <= rel * max(abs(a), abs(b)) + 1e-300
+
+def extra_oracle(which):
+    """which = 'value' (C14) or 'grad' (C15)"""
+    def extra(rng, tier, progs, results):
+        info = {'oracle_programs': 0, 'oracle_points': 0}
+        viol, known = [], []
+        for r in results:
+            orc = getattr(r.prog, 'oracle', None)
+            if not orc or not r.h:
+                continue
+            info['oracle_programs'] += 1
+            kind, m, xs, ws = orc
+            obs = [l for l in r.h if ' dims=' in l and ' data=' in l]
+            def data(l, key):
+                mm = re.search(key + r'=([0-9,]+)', l)
+                return [b2f(v) for v in mm.group(1).split(',')] if mm else None
+            if kind == 'softmax':
+                if which != 'value': continue
+                got = data(obs[0], ' data') if obs else None
+                flat = [v for row in xs for v in row]
+                if not got or len(got) != len(flat):
+                    viol.append(('%s: no forward values observed' % r.prog.name, r)); continue
+                for ri, row in enumerate(xs):
+                    mx = max(row); den = sum(math.exp(v - mx) for v in row)
+                    for ci, v in enumerate(row):
+                        info['oracle_points'] += 1
+                        want = math.exp(v - mx) / den
+                        if not _close(got[ri * len(row) + ci], want):
+                            viol.append(('%s: softmax row %s element %d: got %r, e^x/sum e^x = %r' % (r.prog.name, row, ci, got[ri * len(row) + ci], want), r))
+                continue
+            if len(obs) < (2 if which == 'grad' else 1):
+                viol.append(('%s: outputs not observed' % r.prog.name, r)); continue
+            yv = data(obs[0], ' data'); gm = re.search(r'grad=dims=[^;]*;data=([0-9,]+)', obs[-1])
+            gv = [b2f(v) for v in gm.group(1).split(',')] if gm else None
+            for i, x in enumerate(xs):
+                info['oracle_points'] += 1
+                if kind == 'relu': f, d = max(0.0, x), (1.0 if x > 0 else 0.0)
+                elif kind == 'leaky': f, d = max(0.0, x) + m * min(0.0, x), (1.0 if x > 0 else m)
+                elif kind == 'sigmoid': f, d = _sig(x), _dsig(x)
+                else: f, d = math.tanh(x), (1.0 / math.cosh(x) ** 2 if abs(x) < 350 else 0.0)
+                tie = kind in ('relu', 'leaky') and abs(x) <= 1e-240
+                if which == 'value':
+                    if yv is None or i >= len(yv) or not _close(yv[i], f):
+                        viol.append(('%s: %s(%r): got %r, formula %r' % (r.prog.name, kind, x, yv[i] if yv and i < len(yv) else None, f), r))
+                else:
+                    got = gv[i] if gv and i < len(gv) else None
+                    want = ws[i] * d
+                    if tie and got is not None and got == got:
+                        lo, hi = sorted([ws[i] * (1.0 if kind == 'relu' else 1.0), ws[i] * (0.0 if kind == 'relu' else m)])
+                        if lo - 1e-12 <= got <= hi + 1e-12: continue
+                    if got is None or not _close(got, want):
+                        msg = '%s: d/dx %s at x=%r times %r: got %r, formula %r' % (r.prog.name, kind, x, ws[i], got, want)
+                        if kind == 'sigmoid' and x < -709.78 and got is not None and got != got:
+                            known.append(('sigmoid-grad-nan-below-minus-709', msg, r))
+                        else:
+                            viol.append((msg, r))
+        paths = []
+        for k, (msg, r) in enumerate(viol[:3]):
+            path = os.path.join(runner.VERIF, 'replays', '%s-oracle-%d.case' % (which, k))
+            os.makedirs(os.path.dirname(path), exist_ok=True)
+            with open(path, 'w') as fh:
+                fh.write('# formula oracle (%s): the real code against the real-number formula of the theorem\n# %s\n' % (which, msg))
+                fh.write(r.prog.text())
+                for l in (r.h or []):
+                    fh.write('# code: %s\n' % l[:400])
+            paths.append((path, msg[:160]))
+        info['oracle_failures'] = [m for m, _ in viol][:10]
+        return {'violations': paths, 'info': info, 'known': [(sig, msg) for sig, msg, _ in known]}
+    return extra
